@@ -396,7 +396,10 @@ def compare(c, cs, out):
         if any(not v.startswith("u") for v in inst["own_times"]):
             c.hit("own-grid states/algebraics")
     if getattr(cs, "second", False):
-        c.hit("second transcribe() on the same object (cached functions, dynamic parameters changed)")
+        if getattr(cs, "cleared", False):
+            c.hit("second transcribe() after clear_transcription_cache() (all parameters / inputs changed)")
+        else:
+            c.hit("second transcribe() on the same object (cached functions, dynamic parameters changed)")
     if inst.get("dyn"):
         c.hit("dynamic parameters")
     if inst.get("equidistant"):
@@ -752,15 +755,54 @@ def run_batch(c, insts, rng, solve=False):
                 # the values of the parameters declared dynamic have changed in between
                 cs1 = p[0]
                 cs1.inst = copy.deepcopy(inst)
-                for j in inst.get("dyn") or []:
+                cleared = inst["again"] == "clear"
+                if cleared:
+                    # clear_transcription_cache() in between: EVERY parameter (ensemble-constant ones too, also
+                    # moving between "constant over the ensemble" and "per member") and the constant-input values
+                    # may have changed; the next transcription must equal that of a fresh object with the new data
+                    cs1.prob.clear_transcription_cache()
+                    for j in range(inst["npar"]):
+                        if j in (inst.get("ptiny") or []):
+                            continue  # tiny values paired with huge coefficients keep their magnitude
+                        r = rng.random()
+                        if r < 0.45:
+                            v = S.dy(rng)
+                            for m in range(inst["E"]):
+                                inst["pvals"][m][j] = v  # constant over the ensemble (before and/or after)
+                        elif r < 0.8:
+                            for m in range(inst["E"]):
+                                if m == 0 or rng.random() < 0.7:
+                                    inst["pvals"][m][j] = S.dy(rng)
                     for m in range(inst["E"]):
-                        if m == 0 or rng.random() < 0.7:
-                            inst["pvals"][m][j] = S.dy(rng)
+                        for ser in inst["cin"][m]:
+                            if rng.random() < 0.5:
+                                ser["values"] = [S.dy(rng) for _ in ser["values"]]
+                else:
+                    for j in inst.get("dyn") or []:
+                        for m in range(inst["E"]):
+                            if m == 0 or rng.random() < 0.7:
+                                inst["pvals"][m][j] = S.dy(rng)
                 q = prepare(c, inst, rng, prob=cs1.prob)
                 if q is not None:
                     q[0].inst = copy.deepcopy(inst)
                     q[0].second = True
+                    q[0].cleared = cleared
                     prepared.append(q)
+                    if cleared:
+                        # history-free reference: a fresh object built with the new data
+                        try:
+                            fresh = run_code(copy.deepcopy(inst))
+                            same = fresh.R == q[0].R and fresh.N == q[0].N and all(
+                                np.allclose(g_at(fresh, x), g_at(q[0], x), rtol=1e-9, atol=1e-9) for x in q[0].dense)
+                            bsame = same and np.array_equal(fresh.lb, q[0].lb) and np.array_equal(fresh.ub, q[0].ub)
+                        except Exception as e:
+                            c.fail("transcribe() of a fresh object raised %s" % type(e).__name__, slim(inst), repr(e)[:300])
+                            bsame = True
+                        if not bsame:
+                            c.fail("transcribe() after clear_transcription_cache() differs from the transcription of a "
+                                   "fresh object with the same (new) data: equality rows / bounds", slim(inst),
+                                   {"rows_second": [float(v) for v in g_at(q[0], q[0].dense[0])][:12],
+                                    "rows_fresh": [float(v) for v in g_at(fresh, q[0].dense[0])][:12]})
     outs = c.model([line for _cs, line in prepared]) if prepared else []
     for k, (cs, _line) in enumerate(prepared):
         compare(c, cs, None if outs is None else outs[k])
@@ -780,7 +822,9 @@ def run(c):
         "are not part of the DAE), grids of 1-6 [12] non-equidistant steps (rarely a single stamp), t0 in {0, 3, -2.5}, "
         "theta in {0, 1/4, 1/2, 3/4, 1, 0.3}, E in 1..4 with forced coincidences between members and forced 0/1 "
         "values, nominals 2^-10..1e4 (powers of two and decimals); streams: main, variables on a coarser grid of their "
-        "own, second transcribe() of the same object with changed dynamic parameters, history probe (initial "
+        "own, second transcribe() of the same object with changed dynamic parameters, second transcribe() after "
+        "clear_transcription_cache() with every parameter / constant input changed (compared with the specification and "
+        "with a fresh object), history probe (initial "
         "derivatives of algebraics/controls observed through the t0 instance of a path constraint), constant inputs "
         "forced into the residual on own stamps that share only count and end points with the grid, real solves.  "
         "distinct = (kind, sizes, E, #stamps, theta, t0, complete/probe comparison, own grids, initial equations) tuples"
@@ -838,6 +882,21 @@ def run(c):
         inst["eqs"][0]["t"].append([S.dy(rng), [["p", 0], ["v", 0]]])
         inst["again"] = True
         single.append(inst)
+    # transcribe, clear_transcription_cache(), change ensemble-constant / per-member parameters and inputs, transcribe
+    # again: every row (the t0 rows with the free initial derivatives included) must be that of a fresh object
+    reclear = []
+    while len(reclear) < c.n(8, 50):
+        inst = S.gen_instance(rng, kind=rng.choice(["affine", "nonlinear"]))
+        if inst["npar"] == 0 or not inst["eqs"]:
+            continue
+        j = rng.randrange(inst["npar"])
+        if rng.random() < 0.6:
+            for m in range(inst["E"]):
+                inst["pvals"][m][j] = inst["pvals"][0][j]  # constant over the ensemble: inlined in the cached functions
+        inst["dyn"] = [q for q in (inst.get("dyn") or []) if q != j] if rng.random() < 0.8 else list(inst.get("dyn") or [])
+        inst["eqs"][0]["t"].append([S.dy(rng), [["p", j], ["v", 0]]] if rng.random() < 0.6 else [S.dy(rng), [["p", j]]])
+        inst["again"] = "clear"
+        reclear.append(inst)
     hist = []
     while len(hist) < c.n(14, 80):
         inst = S.gen_instance(rng, kind=rng.choice(["affine", "nonlinear"]))
@@ -867,7 +926,7 @@ def run(c):
     for inst in sol[: n_solve // 3]:
         S.add_own_times(rng, inst)
     # batches keep the driver input small
-    allinst = insts + own + hist + cown + mo + single
+    allinst = insts + own + hist + cown + reclear + mo + single
     for k in range(0, len(allinst), 40):
         run_batch(c, allinst[k:k + 40], rng)
     run_batch(c, sol, rng, solve=True)
